@@ -196,10 +196,34 @@ def oracle(run, s, o):
                     run.violation("results of the permuted batch are not the permuted results", rp)
 
 
+def shape_terms(run, specs, obs_by_id):
+    """Coq evaluation of the entry guards of verify_batch on the ill-formed triples (C03_empty_refused / C03_length_mismatch_refused)"""
+    from lib import vmodel
+    terms, names = [], []
+    for s in specs:
+        if "_shape" not in s:
+            continue
+        vm = s["verifies"][0]["vmembers"]
+        ns, npf, nt = sum(1 for x in vm if "stmt" in x), sum(1 for x in vm if "proof" in x), sum(1 for x in vm if "ctx" in x)
+        if ns == npf == nt and ns > 0:
+            continue
+        o = obs_by_id.get(s["id"])
+        if not o:
+            continue
+        terms.append(f"(chk_shape {ns}%nat {npf}%nat {nt}%nat {coq_bool(o['verifies'][0]['result'] == 'ok')})")
+        names.append(s)
+    bad = vmodel.coq_eval_codes("c03s", vmodel.VHEADER, terms, shards=1)
+    run.bump("model_evaluations", len(terms))
+    for i in bad:
+        run.violation(f"model and implementation disagree on the entry guards of verify_batch (shape {names[i]['_shape']})",
+                      {"kind": "session", "spec": sessions.strip(names[i]), "correspondence": "Exec/VerifyExec.chk_shape"}, no_input=True)
+
+
 def run(run: Run):
     run.run_audit()
     specs = gen_specs(run)
-    sessions.run_sessions(run, specs, oracle, relevant=0x1FF, jobs=12)
+    obs = sessions.run_sessions(run, specs, oracle, relevant=0x1FF, jobs=12)
+    shape_terms(run, specs, {s["id"]: o for s, o in zip(specs, obs)})
     return run.finish(
         "proof",
         "batches of sizes around every chunk boundary with no / one / two invalid members (eight kinds of invalidity) at first / last / boundary / random "
